@@ -22,11 +22,11 @@ STUBS = [
 ]
 
 
-def base_env(build):
+def base_env(build, extra_cfg=""):
     env = dict(os.environ)
     env["CARGO_NET_OFFLINE"] = "true"
     env["RUST_BACKTRACE"] = "0"
-    env["RUSTFLAGS"] = BUILD_FLAGS[build]
+    env["RUSTFLAGS"] = BUILD_FLAGS[build] + extra_cfg
     env.pop("CARGO_TARGET_DIR", None)
     return env
 
@@ -82,9 +82,25 @@ def run_limited(cmd, cwd, env, log_path, timeout_s, mem_gb):
 CHECK_RE = re.compile(r"^Check (\d+): (\S.*)$")
 
 
-def parse_kani_log(path):
+def split_sections(path):
+    """A Kani log of several harnesses -> {kani harness name: [lines]} (plus "" for the preamble)."""
+    out = {"": []}
+    cur = ""
+    with open(path, "r", errors="replace") as f:
+        for line in f:
+            if line.startswith("Checking harness "):
+                cur = line[len("Checking harness "):].strip().rstrip(".")
+                out[cur] = []
+                continue
+            if line.startswith("Unwinding loop"):
+                continue
+            out[cur].append(line)
+    return out
+
+
+def parse_kani_log(path, lines=None):
     """Extract verdict, failed checks, cover results, CBMC statistics, encoded repo functions and
-    concrete playback value vectors from a Kani log."""
+    concrete playback value vectors from a Kani log (or from the given section of one)."""
     res = {
         "verdict": None, "failed": [], "covers": [], "unwind_failed": [], "stats": {},
         "functions": set(), "playback": [], "compile_error": False, "stubs_applied": [],
@@ -94,9 +110,15 @@ def parse_kani_log(path):
     solver_s = 0.0
     in_play = False
     play = None
-    with open(path, "r", errors="replace") as f:
-        for line in f:
-            if line.startswith("Unwinding loop") or line.startswith("Not unwinding"):
+    if lines is None:
+        with open(path, "r", errors="replace") as f:
+            lines = [l for l in f if not l.startswith("Unwinding loop")]
+    if True:
+        for line in lines:
+            if line.startswith("Unwinding loop"):
+                continue
+            if line.startswith("Not unwinding"):
+                res.setdefault("not_unwound", []).append(line.strip()[:300])
                 continue
             line = line.rstrip("\n")
             m = CHECK_RE.match(line)
@@ -171,18 +193,19 @@ class Worker(threading.Thread):
     def run(self):
         while True:
             try:
-                h = self.q.get_nowait()
+                job = self.q.get_nowait()
             except queue.Empty:
                 return
-            self.sched.acquire(h["mem_gb"])
+            est = max(h["est_gb"] for h in job)
+            self.sched.acquire(est)
             try:
-                self.results[h["name"]] = run_harness(h, self.wid)
+                self.results.update(run_job(job, self.wid))
             finally:
-                self.sched.release(h["mem_gb"])
+                self.sched.release(est)
 
 
 class MemSched:
-    """Admit harnesses so that the sum of their memory caps stays under the budget."""
+    """Admit jobs so that the sum of their expected memory use stays under the budget."""
     def __init__(self, budget_gb):
         self.budget = budget_gb
         self.used = 0
@@ -200,53 +223,118 @@ class MemSched:
             self.cv.notify_all()
 
 
-def kani_cmd(h, target_dir):
-    cmd = ["cargo", "kani", "-Z", "stubbing", "-Z", "concrete-playback", "--concrete-playback=print",
-           "--harness", h["kani_name"], "--exact", "--target-dir", target_dir]
+def kani_cmd(hs, target_dir, playback, harness_timeout=None):
+    cmd = ["cargo", "kani", "-Z", "stubbing"]
+    if playback:
+        cmd += ["-Z", "concrete-playback", "--concrete-playback=print"]
+    if harness_timeout:
+        cmd += ["-Z", "unstable-options", "--harness-timeout", "%ds" % harness_timeout]
+    for h in hs:
+        cmd += ["--harness", h["kani_name"]]
+    cmd += ["--exact", "--target-dir", target_dir]
     return cmd
 
 
-def run_harness(h, wid):
-    os.makedirs(os.path.join(WORK, "logs"), exist_ok=True)
-    target_dir = os.path.join(KT, "%s-w%d" % (h["build"], wid))
-    log = os.path.join(WORK, "logs", h["name"].replace("::", "__") + ".log")
-    status, wall, peak = run_limited(kani_cmd(h, target_dir), HARNESS_DIR, base_env(h["build"]),
-                                     log, h["timeout_s"], h["mem_gb"])
-    parsed = parse_kani_log(log)
+def classify(h, status, parsed, wall, peak, log):
     out = {"harness": h, "run_status": status, "wall_s": round(wall, 1),
            "peak_rss_mb": peak // 1024, "log": log, **parsed}
-    if status in ("timeout", "oom"):
+    if parsed["verdict"] == "SUCCESSFUL":
+        out["outcome"] = "pass"
+    elif parsed["verdict"] == "FAILED" and parsed["failed"]:
+        out["outcome"] = "fail"
+    elif parsed["verdict"] == "FAILED" and parsed["unwind_failed"]:
+        out["outcome"] = "inconclusive"
+        out["reason"] = "unwinding assertion failed (bound too small): " + \
+            "; ".join(sorted({c["loc"] or "" for c in parsed["unwind_failed"]}))[:300]
+    elif status in ("timeout", "oom"):
         out["outcome"] = "inconclusive"
         out["reason"] = status
     elif parsed["compile_error"] and parsed["verdict"] is None:
         out["outcome"] = "build_failed"
         out["reason"] = "harness crate does not compile against /repo"
-    elif parsed["verdict"] == "SUCCESSFUL":
-        out["outcome"] = "pass"
     elif parsed["verdict"] == "FAILED":
-        if parsed["failed"]:
-            out["outcome"] = "fail"
-        elif parsed["unwind_failed"]:
-            out["outcome"] = "inconclusive"
-            out["reason"] = "unwinding assertion failed (bound too small): " + \
-                "; ".join(sorted({c["loc"] or "" for c in parsed["unwind_failed"]}))[:300]
-        else:
-            out["outcome"] = "inconclusive"
-            out["reason"] = "FAILED without a failed check (CBMC error / out of memory?)"
+        out["outcome"] = "inconclusive"
+        out["reason"] = "FAILED without a failed check (per-harness timeout, CBMC error or out of memory)"
     else:
         out["outcome"] = "inconclusive"
         out["reason"] = "no verdict (%s)" % status
     return out
 
 
+def run_job(job, wid):
+    """Pass 1: one `cargo kani` invocation for all harnesses of the job (same build and flavour),
+    without concrete playback (trace extraction costs 10-20x the verification itself).
+    Pass 2, only for harnesses with a failed assertion: re-run with playback and without cover
+    witnesses to obtain the counterexample's values."""
+    os.makedirs(os.path.join(WORK, "logs"), exist_ok=True)
+    build = job[0]["build"]
+    target_dir = os.path.join(KT, "%s-w%d" % (build, wid))
+    first = os.path.join(KT, "%s-w0" % build)
+    if not os.path.isdir(target_dir) and os.path.isdir(first) and wid != 0:
+        subprocess.run(["cp", "-a", first, target_dir])
+    results = {}
+    if len(job) == 1:
+        h = job[0]
+        log = os.path.join(WORK, "logs", h["name"].replace("::", "__") + ".log")
+        status, wall, peak = run_limited(kani_cmd(job, target_dir, False), HARNESS_DIR, base_env(build),
+                                         log, h["timeout_s"] + 90, h["mem_gb"])
+        results[h["name"]] = classify(h, status, parse_kani_log(log), wall, peak, log)
+    else:
+        log = os.path.join(WORK, "logs", "batch-%s-w%d-%s.log" % (build, wid, job[0]["name"].replace("::", "__")))
+        per = max(h["timeout_s"] for h in job)
+        status, wall, peak = run_limited(kani_cmd(job, target_dir, False, per), HARNESS_DIR, base_env(build),
+                                         log, 120 + sum(min(h["timeout_s"], 300) for h in job), max(h["mem_gb"] for h in job))
+        sections = split_sections(log)
+        pre = parse_kani_log(log, sections.get("", []))
+        for h in job:
+            sec = sections.get(h["kani_name"])
+            if sec is None:
+                parsed = parse_kani_log(log, [])
+                parsed["compile_error"] = pre["compile_error"]
+                r = classify(h, status if status != "ok" else "exit:?", parsed, 0.0, peak, log)
+            else:
+                parsed = parse_kani_log(log, sec)
+                w = parsed["stats"].get("kani_verification_s", 0.0)
+                r = classify(h, status if parsed["verdict"] is None else "ok", parsed, w, peak, log)
+            results[h["name"]] = r
+    for h in job:
+        r = results[h["name"]]
+        if r["outcome"] != "fail":
+            continue
+        log2 = os.path.join(WORK, "logs", h["name"].replace("::", "__") + ".playback.log")
+        status, wall, peak = run_limited(kani_cmd([h], target_dir, True), HARNESS_DIR,
+                                         base_env(build, " --cfg verif_nocover"),
+                                         log2, 2 * h["timeout_s"] + 300, max(16, h["mem_gb"]))
+        p2 = parse_kani_log(log2)
+        r["playback"] = p2["playback"]
+        r["playback_status"] = status
+        r["playback_log"] = log2
+        r["wall_s"] = round(r["wall_s"] + wall, 1)
+    return results
+
+
 def run_all(harnesses, jobs, mem_budget_gb):
+    """Group harnesses into jobs: harnesses with a `batch` size are run several per invocation
+    (same build / flavour), the others one per invocation; longest first."""
+    singles = [[h] for h in harnesses if not h.get("batch")]
+    groups = {}
+    for h in harnesses:
+        if h.get("batch"):
+            groups.setdefault((h["build"], h["gmod"], h["batch"]), []).append(h)
+    batches = []
+    for (_, _, size), hs in groups.items():
+        # spread over at least `jobs` invocations
+        size = max(1, min(size, -(-len(hs) // max(1, jobs))))
+        for i in range(0, len(hs), size):
+            batches.append(hs[i:i + size])
     q = queue.Queue()
-    # longest first
-    for h in sorted(harnesses, key=lambda h: -h["timeout_s"]):
-        q.put(h)
+    for job in sorted(singles + batches, key=lambda j: -sum(h["timeout_s"] for h in j)):
+        q.put(job)
     results = {}
     sched = MemSched(mem_budget_gb)
-    ws = [Worker(i, q, results, sched) for i in range(min(jobs, max(1, len(harnesses))))]
+    wbase = int(os.environ.get("VERIF_WBASE", "0") or 0)   # development aid: separate target dirs for concurrent runs
+    njobs = len(singles) + len(batches)
+    ws = [Worker(wbase + i, q, results, sched) for i in range(min(jobs, max(1, njobs)))]
     for w in ws:
         w.start()
     for w in ws:
